@@ -782,6 +782,22 @@ def cams_of(obs):
     return out
 
 
+def target_redundant_starts(rng, script):
+    """start() calls on the ALREADY ACTIVE service shortly after CAMs were sent (they must change nothing): the script is run
+    once undisturbed through CooperativeAwarenessBasicService, then redundant starts are placed 5..95 ms after some CAMs"""
+    s1 = dict(script)
+    s1["via_service"] = True
+    cams = cams_of(run_cam_script(s1))
+    s2 = dict(s1)
+    s2["gen"] = script.get("gen", "") + "+redundant_start"
+    ev = [list(e) for e in script["events"]]
+    for (t, _lf) in rng.sample(cams[1:], min(len(cams) - 1, rng.choice([2, 3, 5]))) if len(cams) > 1 else []:
+        ev.append([t + rng.choice([5, 30, 55, 95]), "start", rng.randrange(0, 101)])
+    ev.sort(key=lambda e: (e[0], {"stop": 0, "start": 1, "report": 2}[e[1]]))
+    s2["events"] = ev
+    return s2
+
+
 def target_cam_failures(rng, script, what="btp_fail"):
     """Failures at chosen checks: the script is run once undisturbed, then the lower layer (or the LDM adapter) is
     made to fail exactly at checks that sent a CAM - preferably CAMs that carried the low-frequency container
@@ -1162,6 +1178,10 @@ def run(ctx):
         base = gen_cam_script(rng, rng.choice(["accel", "turn", "mixed", "stopgo", "near"]), rng.choice([8_000, 20_000]))
         scripts.append(target_cam_failures(rng, base, rng.choice(["btp_fail", "btp_fail", "ldm_fail"])))
     check_cam_scripts(ctx, scripts, "fail")
+    # start() on the active service right after a CAM
+    scripts = [target_redundant_starts(rng, gen_cam_script(rng, rng.choice(["constant", "accel", "turn", "stopgo"]),
+                                                           rng.choice([8_000, 20_000]))) for _ in range(4 if quick else 20)]
+    check_cam_scripts(ctx, scripts, "redundant_start")
     # long runs (hours of virtual time in the thorough tier)
     long_ms = 600_000 if quick else 3 * 3600_000
     check_cam_scripts(ctx, [gen_cam_script(rng, "mixed", long_ms)], "long")
